@@ -58,8 +58,22 @@ NOTES = [
     "OPEN finding (KNOWN_FINDINGS signature raw-output / kept-stdout-write-lost); the model side drops that text, the "
     "oracle demands it, the search shows the finding once and then tolerates it so that it cannot hide another "
     "failure (switch sandboxio_common.KEPT_STDOUT = off | open | fixed; notes/C15.md section 6)",
-    "not modelled: MAXIMUM_INPUTS (100000 reads), output written by the abandoned thread of a timed-out execution "
-    "(C14), real_io / PrintingStringIO, student code that replaces or closes sys.stdout or calls sandbox APIs itself, "
+    "the capture buffer (round 4): with real printing allowed (allow_function('print') through commands or the "
+    "Sandbox, allow_real_io, run(real_io=True)) the sandbox captures through PrintingStringIO, a tee to the console, "
+    "instead of io.StringIO. The Lean model has ONE buffer (the property does not mention it): the switches are "
+    "annotations the model and the oracle ignore (allow_real_io = set_input(callable), block_real_io = clear_input, "
+    "run(real_io=True) = run(inputs=callable) + clear_input), so every tee'd history is compared with the same model "
+    "run and judged by the same oracle - 'the recorded text is the same under both buffers' is sampled (correspondence "
+    "+ search + small-scope enumeration over write forms x switches), not proved; what is echoed to the console is "
+    "swallowed and not judged. Write forms: print (explicit / default sep,end, file=sys.stdout, flush=True), "
+    "sys.stdout.write, writelines, flush in between, kept print / helper module / generator / kept stdout object",
+    "MAXIMUM_INPUTS (read from the tree under test) is a safety valve of ONE execution and is not in the Lean model; "
+    "search-only limit histories: one execution reading limit-1 times (full oracle), limit and limit+1 times (only the "
+    "reads BELOW the limit are judged: FIFO / default values in the record, their prompts at the head of the output), "
+    "several executions each far below the limit whose TOTAL crosses it (full oracle: every execution gets FIFO / "
+    "default however many reads the sandbox served before), also with real printing allowed",
+    "not modelled: output written by the abandoned thread of a timed-out execution (C14), the text echoed to the real "
+    "console, student code that replaces or closes sys.stdout or calls sandbox APIs itself, "
     "clear() / clear_student_data() (they delete everything student code could have kept)",
 ]
 
@@ -107,6 +121,38 @@ def survivor_class(case):
                 kinds.add({"kr": "input", "kr0": "input", "hr": "module-input", "kp": "print", "hp": "module-print",
                            "hw": "module-write"}.get(e[0], "stdout-object"))
     return kinds
+
+
+def buffer_class(case):
+    """evidence counters for the capture-buffer dimension: which switch, and which write forms were executed while the
+    tee buffer was the capture buffer"""
+    if not sc.uses_tee(case):
+        return set()
+    out = {"buffer:tee-history"}
+    on = bool(case.get("tee0"))
+    if on:
+        out.add("buffer:switch:" + case["tee0"] + "-before-setup")
+    for op, raises in sc.walk(case["ops"]):
+        if op.get("tee"):
+            on = op["tee"] != "off"
+            out.add("buffer:switch:" + op["tee"])
+        if op.get("via") == "allow_real_io" and not raises:
+            on = True
+            out.add("buffer:switch:allow_real_io")
+        if op.get("via") == "block_real_io":
+            on = False
+            out.add("buffer:switch:block_real_io")
+        if op["k"] == "exec" and op.get("real_io") is not None:
+            out.add("buffer:switch:run(real_io=True)")
+            if not raises:
+                for e in op["events"]:
+                    out.add("buffer:tee-write:" + e[0])
+            on = on if raises else False
+            continue
+        if op["k"] == "exec" and on and not raises:
+            for e in op["events"]:
+                out.add("buffer:tee-write:" + e[0])
+    return out
 
 
 def string_corr(rng, tier, driver, res):
@@ -162,6 +208,12 @@ def correspond(rng, tier, driver):
     # output operation (in place and rebinding) in between
     for _ in range(250 if tier == "quick" else 3000):
         cases.append(sc.gen_survivor_case(rng, allow_callable=rng.random() < 0.4))
+    # the capture buffer as a dimension: the same kinds of history with real printing allowed (PrintingStringIO
+    # instead of io.StringIO) through each public switch, for the whole history or switched on / off along it
+    for j in range(300 if tier == "quick" else 3000):
+        base = sc.gen_survivor_case(rng, allow_callable=rng.random() < 0.4) if j % 3 == 2 else \
+            sc.gen_case(rng, allow_callable=True)
+        cases.append(sc.add_tee(rng, base))
     reals, lines = [], []
     for case in cases:
         real = sc.run_real(case)
@@ -169,7 +221,7 @@ def correspond(rng, tier, driver):
         lines.append(sc.request_line(case))
     answers = driver.ask(lines)
     for (case, real), line, ans in zip(reals, lines, answers):
-        model = sc.parse_model(ans)
+        model = sc.parse_model(ans, case)
         res.evaluations += 1
         res.count("nops=%d" % len(case["ops"]))
         for op in case["ops"]:
@@ -178,6 +230,8 @@ def correspond(rng, tier, driver):
             res.count("history-with-raising-op")
         for kind in survivor_class(case):
             res.count("kept:" + kind)
+        for what in buffer_class(case):
+            res.count(what)
         if sc.has_stale_route(case) and any(op["k"] in ("clear_input", "set_input") and
                                             (op["k"] == "clear_input" or op["arg"][0] in ("none", "callable"))
                                             for op in case["ops"]):
@@ -210,13 +264,142 @@ SMALL_OPS = [
 ]
 
 
-def small_scope(maxlen):
+# the capture buffer: every way of writing, and every public switch that turns real printing on / off
+TEE_OPS = [
+    _ex([]), _ex([["w", "a\n"]]), _ex([["wl", ["c\n", "d"]]]),
+    _ex([["p0", ["e"]], ["fl"], ["pf", ["f"], " ", ""]], "run"), _ex([["pfl", ["g"], "", "\n"], ["wl", []]], "eval"),
+    _ex([["r", "p"], ["kp", 0, ["h"], " ", "\n"], ["hw", 0, "i\n"]]),
+    {"k": "clear_output"}, {"k": "set_input", "arg": ["many", ["1"]], "clear": True},
+    dict(_ex([["wl", ["s\n", "t \n"]], ["w", "u"]]), tee="off"), dict(_ex([["wl", ["v\n"]]], "eval"), tee="sb_allow"),
+    {"k": "set_input", "arg": ["callable", 1], "clear": True, "via": "allow_real_io"},
+    {"k": "clear_input", "via": "block_real_io"},
+    dict(_ex([["wl", ["y\n"]], ["r", "q"], ["p", ["z"], " ", "\n"]], "run"), real_io=0),
+]
+
+
+def small_scope(maxlen, alphabet=None):
+    alphabet = SMALL_OPS if alphabet is None else alphabet
     for n in range(1, maxlen + 1):
-        for combo in itertools.product(range(len(SMALL_OPS)), repeat=n):
+        for combo in itertools.product(range(len(alphabet)), repeat=n):
             # at least one execution, or nothing observable differs from shorter histories
-            if not any(SMALL_OPS[i]["k"] == "exec" for i in combo):
+            if not any(alphabet[i]["k"] == "exec" for i in combo):
                 continue
-            yield {"ops": [SMALL_OPS[i] for i in combo]}
+            yield {"ops": [alphabet[i] for i in combo]}
+
+
+def _brief(obs):
+    """an observation with long values cut (limit histories hold 100000 inputs)"""
+    out = {}
+    for k, v in obs.items():
+        if isinstance(v, str) and len(v) > 200:
+            v = v[:80] + "...(%d chars)..." % len(v) + v[-40:]
+        elif isinstance(v, list) and len(v) > 40:
+            v = v[:12] + ["...(%d entries)..." % len(v)] + v[-6:]
+        out[k] = v
+    return out
+
+
+def input_limit():
+    """the safety limit on input() calls of ONE execution, read from the tree under test"""
+    try:
+        from pedal.sandbox.sandbox import Sandbox
+    except Exception:
+        return None, "no-sandbox"
+    v = getattr(Sandbox, "MAXIMUM_INPUTS", None)
+    if isinstance(v, int) and not isinstance(v, bool) and v > 0:
+        return v, "Sandbox.MAXIMUM_INPUTS"
+    cands = [(n, x) for n, x in vars(Sandbox).items() if isinstance(x, int) and not isinstance(x, bool)
+             and "INPUT" in n.upper() and x > 1]
+    if len(cands) == 1:
+        return cands[0][1], "Sandbox." + cands[0][0]
+    return None, "not-found"
+
+
+def _reads(n, prompt="", kind="call", events_after=()):
+    return {"k": "exec", "kind": kind, "pre": None, "events": [["rn", n, prompt]] + [list(e) for e in events_after],
+            "raises": False, "student_file": True}
+
+
+def limit_stream(tier, consider, info):
+    """Histories around the safety limit on input() calls (a documented safety valve of ONE execution; the property
+    says nothing about what happens at or beyond it).  Judged only where the property speaks:
+      * one execution reading limit-1 times: every read FIFO, then the default (full oracle);
+      * one execution reading limit / limit+1 times: the reads BELOW the limit FIFO / default, their prompts in the
+        output in order; what the limit-th read does is not judged;
+      * several executions that each stay far below the limit while their TOTAL crosses it: full oracle (every
+        execution of a sandbox gets FIFO / default, however many reads the sandbox has served before)."""
+    limit, where = input_limit()
+    info["input_limit"] = {"value": limit, "read_from": where}
+    eff = limit if limit is not None else 100000
+    skipped = info.setdefault("limit_skipped", {})
+    if eff > 400000:
+        skipped["limit-too-large-for-boundary-histories"] = eff
+        eff = 400000
+        limit = None
+    q = {"k": "set_input", "arg": ["many", ["first", "", "third"]], "clear": True}
+    hist = []
+    # TOTAL crosses the limit, each execution far below it (few large executions)
+    per = max(1, (eff * 3) // 10)
+    ops = []
+    for j in range(4):
+        ops += [q if j % 2 == 0 else {"k": "queue_input", "items": ["x%d" % j]},
+                _reads(per, "?" if j == 1 else "", kind=["call", "eval", "call", "run"][j])]
+    ops += [{"k": "clear_output"}, q, _reads(2, "n", events_after=[["w", "tail\n"], ["r0"], ["r", "z"]])]
+    hist.append(("total-crosses:4x0.3", {"ops": ops}, None))
+    # the crossing read happens in a SMALL execution
+    half = max(1, (eff - 1) // 2)
+    ops = [q, _reads(half), _reads(half, kind="run"), {"k": "queue_input", "items": ["a", "b"]},
+           _reads(3, "p", events_after=[["p", ["done"], " ", "\n"]]), _reads(2, kind="eval")]
+    hist.append(("total-crosses:small-execution", {"ops": ops}, None))
+    # with real printing allowed as well
+    hist.append(("total-crosses:tee", {"tee0": "sb_allow", "ops": [q, _reads(half), _reads(half), _reads(4, "t")]}, None))
+    if tier == "thorough":
+        # many small executions
+        small = max(1, eff // 150)
+        hist.append(("total-crosses:many-small", {"ops": [q] + [_reads(small, kind=["call", "eval"][j % 2])
+                                                                for j in range(160)] + [q, _reads(4, "m")]}, None))
+    if limit is not None:
+        hist.append(("one-execution:limit-1", {"ops": [q, _reads(limit - 1, events_after=[["w", "end\n"]])]}, None))
+        for n in (limit, limit + 1):
+            hist.append(("one-execution:limit%+d" % (n - limit), {"ops": [q, _reads(n, kind="call")]}, limit))
+    else:
+        skipped["no-limit-constant:boundary-histories"] = 3
+    done = info.setdefault("limit_histories", [])
+    for name, case, lim in hist:
+        done.append(name)
+        if lim is None:
+            consider(case, noshrink=True)
+        else:
+            consider(case, judge=lambda c, real, lim=lim: judge_below_limit(c, real, lim))
+
+
+def judge_below_limit(case, real, limit):
+    """one execution (the last op) reads >= limit times: first the full oracle (a tree without the valve passes it);
+    otherwise only the reads BELOW the limit are judged - their values (FIFO, then the default) in the execution's
+    record and their prompts at the head of the raw output and the record's output"""
+    v = sc.judge(case, real)
+    if v is None:
+        return None
+    robs = real[0]
+    exp, _records = sc.expected(case)
+    i = len(robs) - 1
+    r, e = robs[i], exp[i]
+    default = sc.learn_default([e["returned"]], [r["last_in"]])
+    want = sc.subst_default(e["returned"], default)[:limit - 1]
+    got = (r["last_in"] or [])[:limit - 1]
+    if got != want:
+        bad = next((j for j, (a, b) in enumerate(zip(got, want)) if a != b), min(len(got), len(want)))
+        return ({"claim": "input-order", "shape": "below-the-input-limit"},
+                "op %d: of %d reads in one execution (limit %d) read #%d is recorded as %r, expected %r (%d recorded)"
+                % (i, len(e["returned"]), limit, bad + 1, got[bad] if bad < len(got) else None,
+                   want[bad] if bad < len(want) else None, len(got)))
+    below = "".join(str(sc.ev_prompt(ev)) + "\n" for ev in sc.flat_ops(case)[i]["events"][:limit - 1])
+    for name, val in (("raw output", r["raw"]), ("record output", r["last_out"])):
+        if not (val or "").startswith(below):
+            return ({"claim": "raw-output", "shape": "below-the-input-limit"},
+                    "op %d: %s holds %d chars, does not start with the %d prompt lines of the reads below the limit"
+                    % (i, name, len(val or ""), limit - 1))
+    return None
 
 
 def search(rng, tier, broken, corr):
@@ -226,7 +409,16 @@ def search(rng, tier, broken, corr):
                     "corpus, the correspondence cases, seeded histories without callable-mode set/queue (every third one "
                     "a survivor history: stored input / print / module / generator used in later executions; the oracle "
                     "makes no difference between routes), and (thorough) "
-                    "every history of <=4 ops over a 12-op alphabet",
+                    "every history of <=4 ops over a 12-op alphabet; the capture buffer as a dimension: every fourth "
+                    "seeded history with real printing allowed (for the whole history or switched on / off along it "
+                    "through commands.allow_function / Sandbox.allow_function / clear_mocked_function / allow_real_io / "
+                    "block_real_io / run(real_io=True); the console is swallowed) and every history of <=2 (thorough 3) ops "
+                    "over a 13-op alphabet of write forms (write, writelines, print default / file=sys.stdout / "
+                    "flush=True, flush, kept print, helper module) and switches, with and without real printing "
+                    "allowed from the start - the oracle ignores the buffer; limit histories: the safety limit on "
+                    "input() calls is read from the tree; one execution reading limit-1 (full oracle), limit, limit+1 "
+                    "times (only the reads below the limit are judged), and several executions each far below the "
+                    "limit whose total crosses it (full oracle)",
             "evaluations": 0, "distinct_nontrivial": 0, "samples": []}
     seen = set()
     nt = set()
@@ -242,7 +434,7 @@ def search(rng, tier, broken, corr):
         return len(failures) - len(known_shown) >= 4 or \
             (first_fail[0] is not None and info["evaluations"] - first_fail[0] > 250)
 
-    def consider(case, real=None):
+    def consider(case, real=None, noshrink=False, judge=None):
         if not sc.in_domain(case):
             return
         info["evaluations"] += 1
@@ -251,8 +443,22 @@ def search(rng, tier, broken, corr):
         k = nontrivial_key(case)
         if k:
             nt.add(k)
+        if sc.uses_tee(case):
+            info["tee_histories"] = info.get("tee_histories", 0) + 1
+        if judge is not None:               # a stream with its own (weaker) reading of the property
+            v = judge(case, real)
+            if v is not None:
+                failures.append(Failure(v[0], v[1], {"case": case, "real_last": _brief(real[0][-1])}))
+                if first_fail[0] is None:
+                    first_fail[0] = info["evaluations"]
+            return
         v = sc.judge(case, real)
         if v is None:
+            return
+        if noshrink:
+            failures.append(Failure(v[0], v[1], {"case": case, "real_last": _brief(real[0][-1])}))
+            if first_fail[0] is None:
+                first_fail[0] = info["evaluations"]
             return
         view = "oracle"
         if canon(v[0]) in known and v[0].get("shape") == "kept-stdout-write-lost":
@@ -298,14 +504,26 @@ def search(rng, tier, broken, corr):
         if enough():
             break
         if j % 3 == 2:
-            consider(sc.gen_survivor_case(rng, allow_callable=rng.random() < 0.3))
+            case = sc.gen_survivor_case(rng, allow_callable=rng.random() < 0.3)
         else:
-            consider(sc.gen_case(rng, allow_callable=rng.random() < 0.3))
+            case = sc.gen_case(rng, allow_callable=rng.random() < 0.3)
+        if j % 4 == 1:
+            case = sc.add_tee(rng, case)
+        consider(case)
     if not enough():
         for case in small_scope(4 if tier == "thorough" else 2 if not broken else 3):
             consider(case)
             if enough():
                 break
+    if not enough():
+        # the same small histories with real printing allowed from the start (PrintingStringIO is the capture buffer)
+        for case in small_scope(3 if tier == "thorough" else 2, TEE_OPS):
+            consider(case)
+            consider(dict(case, tee0="cmd_allow"))
+            if enough():
+                break
+    if not enough():
+        limit_stream(tier, consider, info)
     info["distinct_nontrivial"] = len(nt)
     return failures, info
 
@@ -318,8 +536,9 @@ def replay(payload):
     real = sc.run_real(case)
     exp, _ = sc.expected(case, "0")
     print("case:", json.dumps(case))
-    print("events as the property sees them:", json.dumps([op["events"] for op in sc.flat_ops(case) if op["k"] == "exec"]))
+    print("events as the property sees them:", str(json.dumps([op["events"] for op in sc.flat_ops(case) if op["k"] == "exec"]))[:3000])
     for i, (r, e) in enumerate(zip(real[0], exp)):
+        r, e = _brief(r), _brief(e)
         print("op %d real   raw=%r lines=%r inputs=%r last_in=%r" % (i, r["raw"], r["lines"], r["inputs"], r["last_in"]))
         print("op %d oracle raw=%r lines=%r queue=%r returned=%r" % (i, e["raw"], e["lines"], e["queue"], e["returned"]))
     print("oracle verdict:", sc.judge(case, real))
